@@ -33,6 +33,14 @@ def _parse(fmt):
             continue
         if ch == ' ':
             continue
+        if ch == 's':
+            codes.append(('s', int(num) if num else 1))
+            num = ''
+            continue
+        if ch == 'x':
+            codes.append(('x', int(num) if num else 1))
+            num = ''
+            continue
         if ch not in _SIZES:
             raise Unsupported(f'struct format char {ch!r}')
         for _ in range(int(num) if num else 1):
@@ -45,17 +53,30 @@ def _pack(fmt, *vals):
     if not any(isinstance(v, (SymInt, SymBool)) for v in vals):
         return _struct.pack(fmt, *vals)
     order, codes = _parse(fmt)
-    if len(codes) != len(vals):
-        raise _struct.error(f'pack expected {len(codes)} items for packing (got {len(vals)})')
+    nvals = sum(1 for c in codes if not (isinstance(c, tuple) and c[0] == 'x'))
+    if nvals != len(vals):
+        raise _struct.error(f'pack expected {nvals} items for packing (got {len(vals)})')
     out = b''
-    for ch, v in zip(codes, vals):
+    vals = list(vals)
+    for ch in codes:
+        if isinstance(ch, tuple):
+            if ch[0] == 'x':
+                out = out + b'\0' * ch[1]
+                continue
+            v = vals.pop(0)
+            v = v[:ch[1]]
+            out = out + v + b'\0' * (ch[1] - len(v))
+            continue
+        v = vals.pop(0)
         size, signed = _SIZES[ch]
         if isinstance(v, SymBool):
             v = v._as_int()
         if isinstance(v, SymInt):
             lim = 1 << (8 * size)
             lo, hi = (-(lim >> 1), (lim >> 1) - 1) if signed else (0, lim - 1)
-            if not (lo <= v) or not (v <= hi):
+            with core.range_check():
+                bad = not (lo <= v) or not (v <= hi)
+            if bad:
                 raise _struct.error(f"'{ch}' format requires {lo} <= number <= {hi}")
             v = core.refine(v, lo, hi)
             piece = bytes_.int_to_bytes(v, size, order, signed)
@@ -69,12 +90,17 @@ def _unpack(fmt, data):
     if not isinstance(data, SymBytes):
         return _struct.unpack(fmt, data)
     order, codes = _parse(fmt)
-    total = sum(_SIZES[c][0] for c in codes)
+    total = sum(c[1] if isinstance(c, tuple) else _SIZES[c][0] for c in codes)
     if len(data) != total:
         raise _struct.error(f'unpack requires a buffer of {total} bytes')
     out = []
     pos = 0
     for ch in codes:
+        if isinstance(ch, tuple):
+            if ch[0] == 's':
+                out.append(data[pos:pos + ch[1]])
+            pos += ch[1]
+            continue
         size, signed = _SIZES[ch]
         out.append(bytes_.bytes_to_int(data[pos:pos + size], order, signed))
         pos += size
